@@ -41,9 +41,7 @@ class RoundTrip(Harness):
 
     def inputs(self, ctx):
         inp = {"x": rt.leaf_inputs(ctx, self.leaf, self.n, self.dialect)}
-        if (rt.config(self.dialect, self.cfg) or {}).get("width") == "sym":
-            inp["width"] = SymInt(ctx.fresh_int("width", 30, 100))
-        return inp
+        return rt.width_input(ctx, self.dialect, self.cfg, inp)
 
     def prop_fn(self, L, inp):
         x = rt.leaf_value(L, inp["x"])
